@@ -52,9 +52,13 @@ CompileText(text) == Compile(ExpandList(PS!ParseText(text)))
 
 \* the compiled definition of one state pseudo-class, as it hangs in the IR
 StateList(k) == [CompileList(ExpandList(PS!ParseText(DefText(k))), TRUE, FALSE, FALSE) EXCEPT !.is_html = TRUE]
-\* the definitions that carry no special flag are complete in themselves: their meaning is the list's
-PlainKeys == {k \in StateKeys : DefFlag(k) = ""}
-StateLists == [k \in PlainKeys |-> StateList(k)]        \* constant level: computed once
-\* T-StateDefs on one document
-StateDefsHold(d, env) == \A k \in PlainKeys : \A i \in Elems(d) : AlgoList(d, env, StateLists[k], i) = StateHolds(d, [k |-> k], i)
+\* (for the five definitions with a special flag the "additional logic" of the matcher is part of the meaning: Ir!AlgoSel has it)
+StateLists == [k \in StateKeys |-> [CompileList(ExpandList(PS!ParseText(DefText(k))), TRUE, FALSE, FALSE) EXCEPT !.is_html = TRUE]]     \* constant level: computed once
+FlaggedList(k) == LET l == StateLists[k] n == Len(l.selectors) IN
+                  IF DefFlag(k) = "" THEN l ELSE [l EXCEPT !.selectors = [l.selectors EXCEPT ![n] = [@ EXCEPT !.flags = {DefFlag(k)}]]]
+FlaggedLists == [k \in StateKeys |-> FlaggedList(k)]
+\* T-StateDefs on one document.  The two range pseudo-classes are left out: what a valid date / number string is has zones the property does
+\* not decide (Calendar.tla CalDecided) and one known open deviation (F18); C18 gates them element by element.
+TheoremKeys == StateKeys \ {"in-range", "out-of-range"}
+StateDefsHold(d, env) == \A k \in TheoremKeys : \A i \in Elems(d) : AlgoList(d, env, FlaggedLists[k], i) = StateHolds(d, [k |-> k], i)
 =============================================================================
